@@ -95,7 +95,7 @@ func lsmOpts(x *seqExec) Options {
 	o := smallOpts(x.dir)
 	o.managedTxns = x.j.Str("mode", "managed") != "normal"
 	o.ValueLogMaxEntries = uint32(x.j.Int("vlog_max_entries", 1000000))
-	o.MemTableSize = 64 << 10
+	o.MemTableSize = int64(x.j.Int("mem_table_size", 64<<10))
 	o.BaseTableSize = int64(x.j.Int("table_size", 256))
 	o.BaseLevelSize = int64(x.j.Int("base_level_size", 600))
 	o.LevelSizeMultiplier = x.j.Int("level_mult", 2)
@@ -280,6 +280,9 @@ func lsmEnabled(x *seqExec) []string {
 	if x.j.Bool("multi", false) {
 		ops = append(ops, "P")
 	}
+	if x.j.Bool("bulk", false) {
+		ops = append(ops, "U")
+	}
 	if x.j.Bool("big", false) {
 		ops = append(ops, "B"+st.keys[0])
 		if len(st.keys) > 1 {
@@ -429,6 +432,32 @@ func lsmApply(x *seqExec, op string) bool {
 		for _, w := range ws {
 			w.Ts = ts
 			st.writes = append(st.writes, w)
+		}
+		return true
+	case 'U': // bulk: one transaction writing 10 filler keys with 400-byte values (fattens the next table)
+		ts := st.nextTs
+		st.nextTs++
+		var txn *Txn
+		if st.normal {
+			txn = db.NewTransaction(true)
+		} else {
+			txn = db.NewTransactionAt(ts, true)
+		}
+		for i := 0; i < 10; i++ {
+			pfx := "f"
+			if len(op) > 1 {
+				pfx = op[1:]
+			}
+			if err := txn.Set([]byte(fmt.Sprintf("%s%d", pfx, i)), val(fmt.Sprintf("fill%d@%d|", i, ts), 400)); err != nil {
+				panic(err)
+			}
+		}
+		if st.normal {
+			if err := txn.Commit(); err != nil {
+				panic(err)
+			}
+		} else if err := txn.CommitAt(ts, nil); err != nil {
+			panic(err)
 		}
 		return true
 	case 'O': // open a snapshot (read-only transaction kept open)
@@ -907,6 +936,14 @@ func lsmKey(x *seqExec) string {
 
 func shapeString(db *DB) string {
 	var b strings.Builder
+	t := db.lc.levelTargets()
+	fmt.Fprintf(&b, "[base L%d;", t.baseLevel)
+	for i, l := range db.lc.levels {
+		if n := l.numTables(); n > 0 {
+			fmt.Fprintf(&b, " L%d:%d tables/%dB(target %d)", i, n, l.getTotalSize(), t.targetSz[i])
+		}
+	}
+	b.WriteString("] ")
 	for _, e := range dumpMem(db) {
 		b.WriteString(e + " ")
 	}
